@@ -358,7 +358,7 @@ func silenceScenario(role string, n int, pattern string) {
 			verdict("C15", mode, "logout", fmt.Sprintf("fail: the peer's Logout received while the session waits for the answer to its own TestRequest was answered by %d Logout(s) and %d Reject(s)", logouts, rejects), tags...)
 		}
 		return
-	case "answer-heartbeat", "answer-other", "answer-testrequest": // an answer in the second period cancels the disconnect
+	case "answer-heartbeat", "answer-other", "answer-testrequest", "answer-seqreset": // an answer in the second period cancels the disconnect
 		p, ok := waitProbe()
 		if !ok {
 			verdict("C09", mode, "probe", "fail: no TestRequest after silence", tags...)
@@ -372,6 +372,8 @@ func silenceScenario(role string, n int, pattern string) {
 			_ = l.Send(l.PeerMsg("0", "112="+id+"\x01"))
 		case "answer-other":
 			_ = l.Send(l.PeerMsg("Y", "262=x\x01"))
+		case "answer-seqreset": // anything the peer sends is a sign of life, a gap fill too
+			_ = l.Send(l.PeerMsg("4", "123=Y\x0136=1000\x01"))
 		case "answer-testrequest":
 			_ = l.Send(l.PeerMsg("1", "112=while-probing\x01"))
 			echoed := false
@@ -403,13 +405,21 @@ func silenceScenario(role string, n int, pattern string) {
 		}
 		verdict("C09", mode, "cancel", "ok", tags...)
 		_ = answered
-	case "steady-1.0", "steady-0.9", "steady-0.5": // a live peer is never probed
-		f := map[string]float64{"steady-1.0": 0.97, "steady-0.9": 0.9, "steady-0.5": 0.5}[pattern]
+	case "steady-1.0", "steady-0.9", "steady-0.5", "steady-mixed": // a live peer is never probed
+		f := map[string]float64{"steady-1.0": 0.97, "steady-0.9": 0.9, "steady-0.5": 0.5, "steady-mixed": 0.8}[pattern]
 		period := time.Duration(float64(N) * f)
 		deadline := time.Now().Add(N*5 + N/2)
 		probed := false
-		for time.Now().Before(deadline) {
-			_ = l.Send(l.PeerMsg("0", ""))
+		for k := 0; time.Now().Before(deadline); k++ {
+			if pattern == "steady-mixed" { // the traffic of a replay: gap fills and application messages, no Heartbeat
+				if k%3 == 2 {
+					_ = l.Send(l.PeerMsg("Y", "262=x\x01"))
+				} else {
+					_ = l.Send(l.PeerMsg("4", "123=Y\x0136=1000\x01"))
+				}
+			} else {
+				_ = l.Send(l.PeerMsg("0", ""))
+			}
 			select {
 			case m := <-l.In:
 				if m.Type == "1" {
@@ -730,7 +740,7 @@ func main() {
 				p := p
 				run(func() { heartbeatScenario(role, n, p) })
 			}
-			for _, p := range []string{"total", "answer-heartbeat", "answer-other", "answer-testrequest", "answer-resend", "answer-logout", "steady-1.0", "steady-0.9", "steady-0.5"} {
+			for _, p := range []string{"total", "answer-heartbeat", "answer-other", "answer-testrequest", "answer-seqreset", "answer-resend", "answer-logout", "steady-1.0", "steady-0.9", "steady-0.5", "steady-mixed"} {
 				p := p
 				run(func() { silenceScenario(role, n, p) })
 			}
